@@ -458,7 +458,8 @@ func (r *Run) builtinAppend(g *G, s Slice, more Value) Value {
 		if al, ok := addLen.(int64); ok && al == 0 {
 			return s
 		}
-		engineFail("append to a symbolic-length slice at %s", r.curPosPrev(g))
+		// case-split the (small) symbolic length of the destination
+		sn, _ = r.concreteIndex(g, s.ln, r.curPosPrev(g))
 	}
 	if al, ok := addLen.(int64); ok && al == 0 {
 		if s.a == nil {
